@@ -332,7 +332,8 @@ def program_round_trip(run, rng, wits):
         srcs += [open(p, encoding="utf-8").read() for p in sorted(glob.glob(os.path.join(vlib.REPO, pat_)))]
     n_corpus = len(srcs)
     srcs += [genprog.G(rng, fail_rate=0.02).program(depth=rng.choice([2, 3])) for _ in range(60 if q else 1500)]
-    srcs += [genprog.closure_program(run.sub_rng("c11-cl")) for _ in range(20 if q else 400)]
+    clrng = run.sub_rng("c11-cl")
+    srcs += [genprog.closure_program(clrng) for _ in range(20 if q else 400)]
     srcs += [genericgen.Gen(rng).program(n_stmts=4, depth=2)[0] for _ in range(15 if q else 300)]
     for _ in range(5 if q else 80):
         srcs += list(callgen.Gen(rng).project(n_calls=5)[0].values())
